@@ -89,7 +89,7 @@ def check_backward(case, ctx):
     desc = case["program"]
     rgidx = [j for j, l in enumerate(desc["leaves"]) if l["rg"]]
     prng = np.random.default_rng(case["pseed"])
-    slim = {"program": {k: v for k, v in desc.items() if k != "deps"}, "pseed": case["pseed"]}
+    slim = {"program": dict(desc), "pseed": case["pseed"]}
 
     def fresh():
         b = P.build(desc)
